@@ -30,11 +30,13 @@ def _second_reading(prop, tier, seed, root, mod, ctx):
         _common.STRICT_LOOPS, _common.FLATTENED = True, set(ctx2.flattened)
         _common.READ_LOOPS.clear()
         _common.ACCOUNTED.clear()
+        _common.ACCOUNTED_RET.clear()
         mod.run(ctx2)
         if ctx2.thorough and hasattr(mod, "run_thorough"):
             mod.run_thorough(ctx2)
         if not ctx2.result.findings:
             _common.audit_early_exits(ctx2.result)
+            _common.audit_return_forms(ctx2)
     except AnalysisError as e:
         ctx.result.note(f"second reading (helper-flattened program) incomplete as well: {str(e)[:300]}")
         return ctx
@@ -86,6 +88,7 @@ def run_check(prop: str, tier: str, seed: int, root=None) -> int:
         from .rules import common as _common
         _common.READ_LOOPS.clear()
         _common.ACCOUNTED.clear()
+        _common.ACCOUNTED_RET.clear()
         try:
             mod.run(ctx)
             if ctx.thorough and hasattr(mod, "run_thorough"):
@@ -94,6 +97,7 @@ def run_check(prop: str, tier: str, seed: int, root=None) -> int:
             ctx.result.error(str(e))
         if not ctx.result.findings:
             _common.audit_early_exits(ctx.result)
+            _common.audit_return_forms(ctx)
         ctx = _second_reading(prop, tier, seed, root, mod, ctx)
         from .report import load_known, match_known
         _known = load_known()
